@@ -102,6 +102,8 @@ func shapeOfType(t reflect.Type) []shape.Field {
 			f.Kind, f.Fields = "struct", shapeOfType(sf.Type)
 		case sf.Type.Kind() == reflect.Pointer && sf.Type.Elem().Kind() == reflect.Struct:
 			f.Kind, f.Fields = "pstruct", shapeOfType(sf.Type.Elem())
+		case sf.Type.Kind() == reflect.Slice && sf.Type.Elem().Kind() == reflect.Struct && elemRegistry[sf.Type.Elem().Name()] == sf.Type.Elem():
+			f.Kind, f.Type = "leaf", "[]"+sf.Type.Elem().Name()
 		default:
 			f.Kind, f.Type = "leaf", strings.ReplaceAll(sf.Type.String(), "struct {}", "struct{}")
 		}
